@@ -505,6 +505,25 @@ impl Property for C08 {
             sc.net.script.sort_by_key(|(s, _)| *s);
             out.push(sc);
         }
+        // a hold / a release issued in the very gap in which messages were scheduled by hand (before the
+        // simulation steps): the hand-scheduled messages are still on the link
+        let mut r2 = Rng::new(base.vseed ^ 0x5eed);
+        let mut extra: Vec<Scenario> = Vec::new();
+        for (p, same_gap) in &plans {
+            if p.is_empty() || !(*same_gap || p.len() == 1) || !r2.chance(1, 2) {
+                continue;
+            }
+            for again in [Act::Hold(Sel::Name(a), Sel::Name(b)), Act::Release(Sel::Name(a), Sel::Name(b))] {
+                let mut sc = base.clone();
+                sc.manual = None;
+                for rank in p.iter() {
+                    sc.net.script.push((man.mark_step, Act::Deliver { a, b, rank: *rank }));
+                }
+                sc.net.script.push((man.mark_step, again));
+                sc.net.script.sort_by_key(|(s, _)| *s);
+                extra.push(sc);
+            }
+        }
         out.extend(plans
             .into_iter()
             .map(|(p, same_gap)| {
@@ -518,6 +537,7 @@ impl Property for C08 {
                 sc.net.script.sort_by_key(|(s, _)| *s);
                 sc
             }));
+        out.extend(extra);
         out
     }
 
